@@ -12,7 +12,10 @@ from vf.gen import frames
 SAFE_TEXT = st.one_of(
     st.sampled_from(["a", "b", "x", "1", "02", "0.7", ".7", "1e5", "True", "False", "nan", "None", "2020-01-01",
                      "A", "é", "ü", "a b", "a-b", "a_b", "10", "1.0", "-3", "inf", "NaT", "é",
-                     "NAN", "Nan", "NAT", "nat", "TRUE", "none", "NULL"]),
+                     "NAN", "Nan", "NAT", "nat", "TRUE", "none", "NULL",
+                     # legal path segments that look like URL escapes, shell patterns or option syntax: stored and read verbatim
+                     "a%20b", "%41", "100%25", "50%", "a+b", "~x", "#1", "a,b", "x;y", "(1)", "[a]", "{k}", "a&b", "$HOME", "*", "?",
+                     "@", "!", "a:b", "'q'"]),
     st.text(alphabet=string.ascii_letters + string.digits + "_-.", min_size=1, max_size=4).filter(
         lambda s: s not in (".", "..")),
 )
